@@ -877,11 +877,25 @@ fn sc_c12(seed: u64, thorough: bool) -> Vec<Scenario> {
             } else {
                 rpc::gen_reply_msg(&mut rng)
             };
-            let mut m = (0x8000_0000u32 | b.len() as u32).to_be_bytes().to_vec();
-            m.extend_from_slice(&b);
-            let mut cuts: Vec<usize> = match rng.below(3) {
-                0 => Vec::new(),
-                1 => vec![rng.range(1, m.len() as u64 - 1) as usize],
+            let mut m;
+            let mut mark2: Option<usize> = None;
+            if b.len() > 12 && rng.chance(1, 3) {
+                // a record of two fragments
+                let c1 = rng.range(4, b.len() as u64 - 4) as usize;
+                m = (c1 as u32).to_be_bytes().to_vec();
+                m.extend_from_slice(&b[..c1]);
+                mark2 = Some(m.len());
+                m.extend_from_slice(&(0x8000_0000u32 | (b.len() - c1) as u32).to_be_bytes());
+                m.extend_from_slice(&b[c1..]);
+            } else {
+                m = (0x8000_0000u32 | b.len() as u32).to_be_bytes().to_vec();
+                m.extend_from_slice(&b);
+            }
+            let mut cuts: Vec<usize> = match (mark2, rng.below(3)) {
+                // a cut at, or inside, the record mark of the continuation fragment
+                (Some(k), 0) | (Some(k), 1) => vec![k + rng.below(5) as usize],
+                (_, 0) => Vec::new(),
+                (_, 1) => vec![rng.range(1, m.len() as u64 - 1) as usize],
                 _ => vec![rng.range(1, m.len() as u64 - 1) as usize, rng.range(1, m.len() as u64 - 1) as usize],
             };
             cuts.sort();
@@ -979,7 +993,13 @@ pub fn scenarios(prop: &str, tier: &str, seed: u64) -> Vec<Scenario> {
         "C08" => sc_c08(seed),
         "C15" => sc_c15(seed, thorough),
         "C18" => sc_c18(seed, thorough),
-        "C10" | "C16" => sc_c10(seed, thorough),
+        "C10" => sc_c10(seed, thorough),
+        "C16" => {
+            let mut v = sc_c10(seed, thorough);
+            // calls behind reply-typed records (whole, cut, in fragments) on the same connection
+            v.extend(sc_c12(seed, thorough));
+            v
+        }
         "C12" => {
             let mut v = sc_c05(seed, false);
             v.extend(sc_c12(seed, thorough));
